@@ -106,6 +106,39 @@ def read_options(rel=SETT):
                         else:
                             kind = "other"
                         out.append(Forward(dest, guard, key, vt, kind, s.lineno, cls.name))
+            # second idiom: value = arg_list.get("<dest>") [or arg_list.get("<old spelling>")]; if value <guard>: confs[key] = value
+            aliases = {}
+            for top in m.body:
+                if isinstance(top, ast.Assign) and isinstance(top.targets[0], ast.Name):
+                    gets = [c for c in ast.walk(top.value) if isinstance(c, ast.Call) and core.src(c.func) == "arg_list.get" and c.args and isinstance(c.args[0], ast.Constant)]
+                    if not gets:
+                        continue
+                    parts = []
+                    v = top.value
+                    if isinstance(v, ast.BoolOp) and isinstance(v.op, ast.Or):
+                        for k, operand in enumerate(v.values):
+                            for c in [c for c in ast.walk(operand) if c in gets]:
+                                parts.append((c.args[0].value, "truthy" if k < len(v.values) - 1 else None))
+                    else:
+                        parts = [(c.args[0].value, None if v is c else "other:" + core.norm(core.src(v), 40)) for c in gets]
+                    aliases[top.targets[0].id] = parts
+                    for d, _ in parts:
+                        probes.setdefault(d, top.lineno)
+                elif isinstance(top, ast.If) and aliases:
+                    names = {x.id for x in ast.walk(top.test) if isinstance(x, ast.Name)} & set(aliases)
+                    if not names:
+                        continue
+                    al = sorted(names)[0]
+                    t = core.src(top.test)
+                    tg = {f"{al} is not None": "is not None", al: "truthy", f"{al} is None": "is None", f"not {al}": "falsy"}.get(t, "other:" + core.norm(t, 60))
+                    for st in ast.walk(top):
+                        if isinstance(st, ast.Assign) and isinstance(st.targets[0], ast.Subscript) and core.src(st.targets[0].value) == "self._confs" and isinstance(st.targets[0].slice, ast.Constant):
+                            in_body = any(st in set(ast.walk(b)) for b in top.body)
+                            for d, eg in aliases[al]:
+                                guard = eg or (tg if in_body else "other:else-arm")
+                                vt = core.src(st.value)
+                                kind = "raw" if vt == al else ("true" if vt == "'.true.'" else ("false" if vt == "'.false.'" else "other"))
+                                out.append(Forward(d, guard, st.targets[0].slice.value, f"self._args.{d}" if vt == al else vt, kind, st.lineno, cls.name))
     return out, probes
 
 
